@@ -2,6 +2,9 @@
 package eccdefault
 
 import (
+	"crypto/ecdsa"
+	"errors"
+
 	"github.com/xuperchain/crypto/client/service/xchain"
 	"github.com/xuperchain/xupercore/lib/crypto/client/base"
 )
@@ -17,4 +20,20 @@ type XchainCryptoClient struct {
 func GetInstance() base.CryptoClient {
 	xcCryptoClient := XchainCryptoClient{}
 	return &xcCryptoClient
+}
+
+// GetEcdsaPublicKeyFromJsonStr parses a public key and refuses coordinates that are not a
+// point of the curve. Such a key comes from the network (transaction / block / vote
+// signatures); using it (address derivation marshals the point) makes current Go releases
+// panic with "crypto/elliptic: attempted operation on invalid point".
+func (xcc *XchainCryptoClient) GetEcdsaPublicKeyFromJsonStr(keyStr string) (*ecdsa.PublicKey, error) {
+	publicKey, err := xcc.XchainCryptoClient.GetEcdsaPublicKeyFromJsonStr(keyStr)
+	if err != nil {
+		return nil, err
+	}
+	if publicKey == nil || publicKey.Curve == nil || publicKey.X == nil || publicKey.Y == nil ||
+		!publicKey.Curve.IsOnCurve(publicKey.X, publicKey.Y) {
+		return nil, errors.New("public key is not a point of its curve")
+	}
+	return publicKey, nil
 }
